@@ -509,15 +509,8 @@ class MQPart:
                 for d, p in zip(c["workload"]["drivers"], pre):
                     if not p:
                         h.add_driver(bursts_of(i, d), late=d["late"], target=box[i])
-            old_h = signal.signal(signal.SIGALRM, _hang)
-            t0 = time.time()
-            old_t = signal.setitimer(signal.ITIMER_REAL, 2.0, 1.0)   # repeating: every spinning process gets its own Hang
-            try:
+            with ec.hang_guard(h, lambda: Hang("run() loops without yielding")):   # per-step, repeating (see elem_common)
                 log = h.run(max_steps=40000, until=HORIZON)
-            finally:
-                left = max(old_t[0] - (time.time() - t0), 0.05) if old_t[0] else 0
-                signal.signal(signal.SIGALRM, old_h)
-                signal.setitimer(signal.ITIMER_REAL, left, 1.0 if left else 0)
         # ---- split the global log
         logs = [[] for _ in range(n)]
         prev = None
@@ -640,15 +633,8 @@ class MQPart:
                 if not p:
                     h.add_driver(d["bursts"], late=d["late"])
             # a run() that loops without yielding never comes back from env.step(): bound the run ourselves
-            old_h = signal.signal(signal.SIGALRM, _hang)
-            t0 = time.time()
-            old_t = signal.setitimer(signal.ITIMER_REAL, 2.0, 1.0)   # repeating: every spinning process gets its own Hang
-            try:
+            with ec.hang_guard(h, lambda: Hang("run() loops without yielding")):   # per-step, repeating (see elem_common)
                 log = h.run(max_steps=20000, until=HORIZON)
-            finally:
-                left = max(old_t[0] - (time.time() - t0), 0.05) if old_t[0] else 0
-                signal.signal(signal.SIGALRM, old_h)
-                signal.setitimer(signal.ITIMER_REAL, left, 1.0 if left else 0)
         rest = [type(e[3]).__name__ + ":" + ",".join(sorted(h.pname(getattr(cb, "__self__", None))
                                                             for cb in (e[3].callbacks or [])
                                                             if isinstance(getattr(cb, "__self__", None), h.Process)))
